@@ -367,4 +367,12 @@ double row_counter_addresses_columns(const RowColCtl& lp)
 
    return s;
 }
+
+// S11: swapped arguments
+struct RangeCtl
+{
+   double l, u;
+   void changeRange(double newLhs, double newRhs) { l = newLhs; u = newRhs; }
+};
+void swapped_arguments(RangeCtl& r, double lhs, double rhs) { r.changeRange(rhs, lhs); }
 }
